@@ -454,7 +454,7 @@ def gen_forms(run, rng):
     forms.append((1, ("P", ("M", ("A", ("S", "X", 0), ("S", "Z", 0)), ("S", "Y", 0)), 2)))             # ((X0+Z0)*Y0)**2
     forms.append((2, ("A", ("M", ("N", 3, 0), ("P", ("M", ("S", "X", 1), ("S", "Z", 1)), 2)), ("M", ("S", "Z", 0), ("S", "Z", 1)))))
     forms.append((2, ("P", ("A", ("M", ("S", "X", 0), ("S", "Y", 0)), ("M", ("S", "Z", 1), ("S", "X", 1))), 3)))
-    for _ in range(40 if quick else 400):
+    for _ in range(40 if quick else 250):
         n = rng.choice([1, 2, 2, 3])
         forms.append((n, rand_pow_form(rng, n)))
     for _ in range(40 if quick else 400):
@@ -478,7 +478,7 @@ def run_forms(run, rng):
             hs.append((n, ast, h))
     res = B.flush()
     judge(run, B, res)
-    need = 30 if run.tier == "quick" else 300
+    need = 30 if run.tier == "quick" else 200
     if run.notes.get("pow_over_product_or_sum_bases", 0) < need:
         run.find("generator:pow_over_products", f"fewer than {need} forms kept a Pow node over a Mul/Add base after sympy's canonicalisation", {}, concrete=False)
     return hs
